@@ -197,6 +197,10 @@ class CContext:
                         field.bitsize.location,
                     )
                 alignment = 1  # Bitfields are 1 bit aligned
+                # A bit-field is accessed through at most 64 bits, starting
+                # at the byte that holds its first bit:
+                if bit_offset % 8 + bitsize > 64:
+                    alignment = 8
             else:
                 bitsize = self.sizeof(field.typ) * 8
                 alignment = self.alignment(field.typ) * 8
